@@ -82,7 +82,7 @@ def ins_corpus(tier, seed):
 def main(tier: str) -> int:
     seed = seed_from_env()
     return run_property(PROP, tier, corpus(tier, seed), crash_is_violation=True, also=("C01", "C05", "C03"),
-                        ins_specs=ins_corpus(tier, seed),
+                        ins_specs=ins_corpus(tier, seed), predict_mid_ckpt=True,
                         note="Every history is killed (os._exit at a chosen likelihood call) 1-4 times and resumed in a "
                              "fresh process; at every resume the deep digest of the restored sampler must equal the "
                              "digest taken when the checkpoint was written; evaluation counter and sampling time must "
